@@ -6,6 +6,12 @@ V = os.path.dirname(os.path.dirname(os.path.abspath(__file__)))
 # id -> (technique, level text, level note, design ref)
 PROOF_NOTE = "Lean 4.33 kernel; axioms propext/Quot.sound/Classical.choice only (audited per run); translator go/extract and the layout interpreter Model/Layout.lean validated against the real IEncode/IDecode by the correspondence run; Go runtime/stdlib modelled (DESIGN.md 2.6)."
 CLAIMED = {
+ "C19": ("Lean 4 theorems over integer nanoseconds: the relative string denotes exactly the duration truncated to seconds (or is empty iff that is zero), negative / unparsable / unrepresentable requests are refused, the absolute string denotes exactly now+duration through a calendar model whose left inverse is proved by loop invariants for every day number; float arithmetic of Duration.Hours() and time.Format tied by correspondence at every unit boundary",
+         "Unbounded proof on the integer model for all durations and all instants (no enumeration of days: the civil-date search is shown to return a date whose day number is the input). Partial in what it trusts: float64 conversions in Duration.Hours()/Minutes()/Seconds() and time.Format are compared with the model on every unit boundary +-1 ns/+-1 s, sub-second parts and random instants of 2000..2099; that the printed month/day are in calendar range is checked on sampled days of every year.",
+         PROOF_NOTE + " time.ParseDuration, float truncation and time.Format outside the proof.", "DESIGN.md 4/C19"),
+ "C18": ("Lean 4 theorems (partial): value extraction, width cut, absent key, SMGP id and both SMGP spellings proved under the explicit hypothesis that the first occurrence of a key token is its field occurrence; CMPP status-report body as an instance of the reflective round-trip theorem; the hypothesis itself (no key token can appear earlier) is validated on the implementation over all 8! orders and all 2^8 subsets",
+         "Partial proof: the theorem holds for every receipt text for which the stated first-occurrence hypothesis holds (any prefix, any following text, any space-free value of any length); that token-free values over the standard key families always satisfy it is explored exhaustively over orders and subsets with random and near-miss values, not yet proved. CMPP body: full proof (C01 instance).",
+         PROOF_NOTE + " strings.Index modelled as first-occurrence search.", "DESIGN.md 4/C18"),
  "C04": ("Lean 4 theorems on a model of the non-blocking and blocking extractors over an abstract stream: framing exactness under every chunking by induction over the chunk list with the invariant `buffer ++ future = undelivered frames ++ tail`, incomplete-consumes-nothing, refusal of prefixes < 4, no partial frame from the blocking extractor; correspondence through a contract-faithful ConnReader with scheduled arrivals, truncation and injected read errors",
          "Unbounded proof for any number of frames of any length and any way of cutting the stream; the model is compared with both codecs on streams of 1..6 frames under every single cut, every pair of cuts for short streams, octet-by-octet delivery, random multi-cuts, every truncation point with and without read errors, and malformed prefixes 0..3.",
          PROOF_NOTE + " The ConnReader contract (Peek/Discard/Size/Read) is as documented in codec/codec.go and implemented by the harness.", "DESIGN.md 4/C04"),
